@@ -1093,3 +1093,26 @@ def stream_history_rows_hold_once_refs(rng):
     return {"version": rng.choice([2, 3]), "options": [], "stmts": stmts,
             "raw": [rng.randint(0, 10 ** 6) for _ in range(60)], "bias": rng.choice(["lo", "hi", "mix", "mix"])}, \
         ["just_once", "random_reference", "history_rows_hold_once_refs"] + (["nick"] if (pn or once["nick"]) else [])
+
+
+def stream_dual_forward_underfilled(rng):
+    """a template referenced forward by its nickname AND by its table name (two slots reserved) that
+    creates fewer rows than slots were reserved (count absent / 1 / 0), ordinary or just_once, alone or
+    followed by another template of the table: whenever a reserved id finds no row the iteration must
+    fail; when a later template of the table takes it the run completes with dense ids"""
+    once = rng.random() < 0.5
+    cnt = rng.choice([None, None, ["int", 1], ["int", 0], ["int", 2]])
+    nick = rng.choice(["pp", "aa"])
+    order = [("r1", ["ref", nick]), ("r2", ["ref", "B"])]
+    if rng.random() < 0.5:
+        order.reverse()
+    if rng.random() < 0.3:
+        order = order[:1] + [("m", ["int", 4])] + order[1:]
+    stmts = [["obj", _T("A", None, False, order)], ["obj", _T("B", nick, once, [("f1", ["int", 2])], count=cnt)]]
+    if rng.random() < 0.35:       # a second template of the table, without the nickname
+        stmts.append(["obj", _T("B", None, rng.random() < 0.3, [("f1", ["int", 3])])])
+    if rng.random() < 0.3:
+        stmts.append(["obj", _T("C", None, False, [("back", ["ref", nick])])])
+    return {"version": rng.choice([2, 3]), "options": [], "stmts": stmts}, \
+        ["dual_forward_ref", "forward_ref", "nick", "dual_forward_underfilled"] + (["just_once"] if once else []) + \
+        (["zero_count"] if cnt == ["int", 0] else [])
